@@ -30,6 +30,7 @@ Apply(p) == CASE p.op = "get"    -> Get(p.k)
               [] p.op = "size"   -> SizeOp
               [] p.op = "stats"  -> StatsOp
               [] p.op = "clear"  -> Clear
+              [] p.op = "sweep"  -> Sweep
 Lin(t) == /\ pend[t].st = "called"
           /\ Apply(pend[t])
           /\ pend' = [pend EXCEPT ![t] = [@ EXCEPT !.st = "done", !.found = last'.found, !.rv = last'.v, !.n = last'.n,
@@ -39,15 +40,17 @@ TRet == /\ Ev.kind = "ret" /\ pend[Ev.t].st = "done"
         /\ LET p == pend[Ev.t] IN
              /\ (p.op \in {"get", "delete"} => p.found = Ev.found)
              /\ (p.op = "get" /\ Ev.found => p.rv = Ev.rv)
-             /\ (p.op \in {"size", "stats"} => p.n = Ev.n)
+             /\ (p.op \in {"size", "stats", "sweep"} => p.n = Ev.n)
              /\ (p.op = "stats" => p.rh = Ev.rh /\ p.rm = Ev.rm /\ p.re = Ev.re)
         /\ pend' = [pend EXCEPT ![Ev.t] = Idle]
         /\ l' = l + 1 /\ UNCHANGED vars
 
+\* the logical clock advanced between operations (nothing is in flight)
+TTick == /\ Ev.kind = "tick" /\ (\A t \in Ths : pend[t].st = "idle") /\ Tick(Ev.n) /\ l' = l + 1 /\ UNCHANGED pend
 TraceInit == /\ TLCSet(1, 0) /\ l = 1 /\ pend = [t \in Ths |-> Idle]
              /\ ents = <<>> /\ use = <<>> /\ ttl = 0 /\ cap = 1 /\ hits = 0 /\ misses = 0 /\ evictions = 0
              /\ last = Ret("init", NoKey, NoVal, FALSE, 0)
-TraceNext == \/ (l <= Len(Trace) /\ (TReset \/ TCall \/ TRet))
+TraceNext == \/ (l <= Len(Trace) /\ (TReset \/ TCall \/ TRet \/ TTick))
              \/ (l <= Len(Trace) /\ \E t \in Ths : Lin(t))
 TraceSpec == TraceInit /\ [][TraceNext]_tvars
 \* high-water mark of consumed events (needs -workers 1)
